@@ -52,7 +52,7 @@ import (
 const watchdog = 20 * time.Second
 
 type Fault struct {
-	Op   string `json:"op"` // exists | fetch | push
+	Op   string `json:"op"` // exists | fetch | push | pushlate (stored, then failed)
 	Node int    `json:"node"`
 }
 
@@ -197,6 +197,13 @@ func (s *skel) op(op string, faultOps []string, tid, n int, ev string, effect fu
 			s.logf("%s:%d:%s", ev, tid, "e")
 			return false
 		}
+	}
+	if ev == "push" && s.hasFault("pushlate", n) {
+		// the destination stored the content, then the push reported an error
+		effect()
+		s.fired = true
+		s.logf("%s:%d:%s", ev, tid, "s")
+		return false
 	}
 	s.logf("%s:%d:%s", ev, tid, effect())
 	return true
@@ -542,6 +549,17 @@ func (st *istore) Push(ctx context.Context, d ocispec.Descriptor, r io.Reader) e
 	}
 	st.data[d.Digest] = b
 	st.count("P", n)
+	if st.name == "dst" {
+		st.e.mu.Lock()
+		late := st.e.hasFault("pushlate", n)
+		if late {
+			st.e.fired = true
+		}
+		st.e.mu.Unlock()
+		if late {
+			return errInjected // stored, then failed
+		}
+	}
 	return nil
 }
 
@@ -607,6 +625,13 @@ func runCase(c *Case) *Result {
 	firedA := s.fired
 	maxA := s.maxG["skel"]
 	earlyA := append([]string(nil), s.early...)
+	var dstA []int
+	for n, ok := range s.present {
+		if ok {
+			dstA = append(dstA, n)
+		}
+	}
+	sort.Ints(dstA)
 	storA := msKeys(s.storage)
 	s.mu.Unlock()
 	var doneNodes []int
@@ -652,7 +677,9 @@ func runCase(c *Case) *Result {
 	for i := range g.Nodes {
 		b.WriteString(" " + csv(s.succ[i]))
 	}
-	b.WriteString(" R " + csv(c.Roots) + " E")
+	p0 := append([]int(nil), c.Present...)
+	sort.Ints(p0)
+	b.WriteString(" R " + csv(c.Roots) + " P " + csv(p0) + " E")
 	for _, ev := range events {
 		b.WriteString(" " + ev)
 	}
@@ -660,7 +687,7 @@ func runCase(c *Case) *Result {
 	if oa.hung {
 		res.Impl = "HUNG"
 	} else {
-		res.Impl = fmt.Sprintf("ACCEPT ret=%d done=%s", b2i(oa.err != nil), csv(doneNodes))
+		res.Impl = fmt.Sprintf("ACCEPT ret=%d done=%s dst=%s", b2i(oa.err != nil), csv(doneNodes), csv(dstA))
 	}
 
 	// ----- B
@@ -723,6 +750,45 @@ func runCase(c *Case) *Result {
 	}
 	if !firedA && !firedB && !oa.hung && !ob.hung && oa.err == nil && ob.err == nil && storA != storB {
 		fail("skeleton-diverges", "storage events differ: skeleton ["+storA+"] real ["+storB+"]")
+	}
+	if !ob.hung {
+		dst.mu.Lock()
+		var dstB []int
+		has := map[int]bool{}
+		for _, n := range g.Nodes {
+			if _, ok := dst.data[n.Desc.Digest]; ok && !n.Foreign() {
+				dstB = append(dstB, n.ID)
+				has[n.ID] = true
+			}
+		}
+		dst.mu.Unlock()
+		if !firedA && !firedB && !oa.hung && oa.err == nil && ob.err == nil && csv(dstA) != csv(dstB) {
+			fail("skeleton-diverges", "final destination differs: skeleton ["+csv(dstA)+"] real ["+csv(dstB)+"]")
+		}
+		init0 := map[int]bool{}
+		for _, p := range c.Present {
+			init0[p] = true
+		}
+		closed0 := true
+		for p := range init0 {
+			for _, m := range e.succ[p] {
+				if !init0[m] {
+					closed0 = false
+				}
+			}
+		}
+		if closed0 { // a destination that started closed under links is closed after every outcome
+			for _, n := range dstB {
+				for _, m := range e.succ[n] {
+					if !has[m] {
+						fail("dst-not-closed-real", fmt.Sprintf("after the call (err=%v) node %d is present but its successor %d is not", ob.err, n, m))
+					}
+				}
+			}
+		}
+		if closed0 {
+			res.Counts = append(res.Counts, "closed-initial-destination")
+		}
 	}
 
 	// statistics
@@ -857,7 +923,7 @@ func genCase(r *common.Rand, thorough bool) *Case {
 		nf = 3
 	}
 	for i := 0; i < nf && len(rl) > 0; i++ {
-		c.Faults = append(c.Faults, Fault{Op: common.Pick(r, []string{"exists", "fetch", "push"}), Node: common.Pick(r, rl)})
+		c.Faults = append(c.Faults, Fault{Op: common.Pick(r, []string{"exists", "fetch", "push", "pushlate"}), Node: common.Pick(r, rl)})
 	}
 	if r.Chance(1, 5) && len(rl) > 0 {
 		c.Cancel = &Fault{Op: common.Pick(r, []string{"exists", "fetch", "push"}), Node: common.Pick(r, rl)}
